@@ -5,7 +5,7 @@ from vv import sched, kit
 from vv.core import Result
 
 ID = 'C01'
-CASES = {'quick': 250, 'thorough': 4000}
+CASES = {'quick': 600, 'thorough': 40000}
 HANG_IS_VIOLATION = True
 RULE = ('Hypothesis draws 1..4 scripted recording processes (timesteps on a k/4 '
         'grid or the 10^-1 grid with precision 1, constant or indexed by '
